@@ -1279,11 +1279,17 @@ impl<'a, 'b> InternalDelphiLogicalLineParser<'a, 'b> {
         let paren_level = self.paren_level;
         let brack_level = self.brack_level;
         let generic_level = self.generic_level;
+        // A `<` between parentheses or brackets may be a comparison, which is never closed; the
+        // chevron level only has to be restored when a `<` opened the pair.
+        let opened_by_chevron = matches!(
+            self.get_current_token_type(),
+            Some(TT::Op(OK::LessThan(_)))
+        );
 
         self.next_token();
         while (self.paren_level != paren_level
             || self.brack_level != brack_level
-            || self.generic_level != generic_level)
+            || (opened_by_chevron && self.generic_level != generic_level))
             && self.get_current_token_type().is_some()
         {
             self.next_token();
